@@ -4,6 +4,7 @@ CONSTANTS
   MaxRun = 2
   Rich = TRUE
   MaxN = 12
+  PassLimit = TRUE
   Runs <- MCRuns
   UpTable <- MCUp
 INVARIANT LimitExact
